@@ -397,6 +397,45 @@ func ruleC19(p *Prog, r *Res) {
 				r.Check(!bad, ruleC, key+" only after successful "+step.what, p.Pos(fl.node(q)), "the failure branch of "+step.what+" returns before the queueing", "after a failed "+step.what+" the capture is still queued for import")
 			}
 		}
+		// at least once: from the success continuation of the last step (the checked Close, or the helper that performs
+		// it) every path to the end of the handler passes the queueing
+		if len(queuePts) > 0 {
+			isCloseStep := func(n ast.Node) bool {
+				return nodeCalls(p, f, n, func(fn *types.Func, _ *ast.CallExpr) bool {
+					if fn.FullName() == "(*os.File).Close" {
+						return true
+					}
+					hf := p.FnOfObj(fn)
+					if hf == nil || hf.Pkg != f.Pkg || hf.Lit != nil {
+						return false
+					}
+					for _, c := range callsIn(hf.Body()) {
+						if cf := p.Callee(hf.Pkg, c); cf != nil && cf.FullName() == "(*os.File).Close" {
+							return true
+						}
+					}
+					return false
+				})
+			}
+			for _, sp := range fl.Find(isCloseStep) {
+				b := sp.B
+				if len(b.Succs) != 2 || sp.I != len(b.Nodes)-2 {
+					continue // not the checked occurrence (cleanup close inside an error branch)
+				}
+				cond, ok := b.Nodes[len(b.Nodes)-1].(*ast.BinaryExpr)
+				if !ok || cond.Op != token.NEQ || types.ExprString(cond.Y) != "nil" {
+					continue
+				}
+				// only the close that can reach the queueing at all (the success-path close)
+				if !fl.Reach([]Pt{{b.Succs[1], 0}}, isQueue, nil).Found {
+					continue
+				}
+				nQueue++
+				res := fl.ExitAvoiding([]Pt{{b.Succs[1], 0}}, isQueue)
+				miss := res.Found || fallsOffEndAvoiding(fl, Pt{b.Succs[1], 0}, isQueue)
+				r.Check(!miss, ruleC, f.Key()+" ImportPcaps on every path after the successful close", p.Pos(fl.node(sp)), "the queueing lies on every path from the successful close to the end of the handler", "a successfully stored upload can be answered without being queued for import ("+fl.traceString(res)+"): the capture sits in the pcap directory, is never imported, and cannot be uploaded again because the name exists")
+			}
+		}
 		// removal of the partial file: dominated by the successful create, unreachable from its failure branch
 		for _, bb := range fl.G.Blocks {
 			for _, n := range bb.Nodes {
